@@ -88,7 +88,8 @@ class State:
         self.axd[key] = ax
 
     def hyps(self):
-        return list(self.axd.values()) + self.pc
+        self.eng.flush_closure()
+        return list(self.eng.heap_axioms.values()) + list(self.axd.values()) + self.pc
 
     # ---------------- heap
     def h(self, key):
@@ -105,12 +106,26 @@ class State:
 class Out:
     """Result of executing a block."""
 
+    merger = None
+
     def __init__(self):
-        self.normal = None   # State or None
+        self.normals = []    # fall-through states (kept separate up to a cap; merged lazily)
         self.rets = []       # (State, SV or None, ordinal)
         self.excs = []       # (State, excname, where)
         self.brks = []
         self.conts = []
+
+    @property
+    def normal(self):
+        if not self.normals:
+            return None
+        if len(self.normals) > 1:
+            self.normals = [Out.merger(self.normals)]
+        return self.normals[0]
+
+    @normal.setter
+    def normal(self, st):
+        self.normals = [] if st is None else [st]
 
     def absorb(self, o):
         self.rets += o.rets
@@ -225,6 +240,8 @@ class Engine:
             self.class_ids[c] = i + 1
         self.ufs = {}
         self.cur = None
+        self.heap_axioms = {}
+        self._pending_closure = []
         self.read_log = None
         self.site_counts = {}
         self.notes = []
@@ -255,8 +272,44 @@ class Engine:
         hk = self.hkey(key)
         if hk not in self._init_heap:
             self._init_keys[hk] = key
+            self._pending_closure.append(key)
             self._init_heap[hk] = z3.Const('H0_' + '_'.join(str(x) for x in hk), self.heap_sort(key))
         return self._init_heap[hk]
+
+    def closure(self, key, arr, alloc, lenarr):
+        """Heap closure: references stored in allocated objects are allocated (or None).  Holds by construction of the
+        Python heap; stated for fresh array symbols only."""
+        r = z3.Int(fresh_name('r'))
+        k0 = key[0]
+        if k0 == 'f':
+            try:
+                ft = self.field_type(key[1])
+            except Unsupported:
+                return None
+            if not ft.reflike:
+                return None
+            v = z3.Select(arr, r)
+            return z3.ForAll([r], z3.Implies(z3.And(r > 0, r <= alloc), z3.And(v >= 0, v <= alloc)), patterns=[v])
+        if k0 == 'elem' and key[2].reflike:
+            k = z3.Int(fresh_name('k'))
+            v = z3.Select(z3.Select(arr, r), k)
+            return z3.ForAll([r, k], z3.Implies(z3.And(r > 0, r <= alloc, k >= 0, k < z3.Select(lenarr, r)),
+                                                z3.And(v >= 0, v <= alloc)), patterns=[v])
+        if k0 == 'dval' and key[3].reflike:
+            k = key[2].fresh(fresh_name('k'))
+            v = z3.Select(z3.Select(arr, r), k)
+            return z3.ForAll([r, k], z3.Implies(z3.And(r > 0, r <= alloc), z3.And(v >= 0, v <= alloc)), patterns=[v])
+        return None
+
+    def flush_closure(self):
+        """Closure axioms for initial heap arrays created since the last call (relative to the entry allocation)."""
+        a0 = z3.Int('alloc0')
+        while self._pending_closure:
+            key = self._pending_closure.pop()
+            hk = self.hkey(key)
+            ax = self.closure(key, self._init_heap[hk], a0, self.initial_heap(self.k_len()) if key[0] == 'elem' else None)
+            if ax is not None:
+                self.heap_axioms[hk] = ax
 
     @staticmethod
     def hkey(key):
@@ -285,7 +338,8 @@ class Engine:
         return ('len',)
 
     def k_elem(self, t):
-        return ('elem', t.key, self.storage(t))
+        st = self.storage(t)
+        return ('elem', st.key, st)
 
     def k_dhas(self, kt):
         return ('dhas', kt.key, kt)
@@ -293,6 +347,9 @@ class Engine:
     def k_dval(self, kt, vt):
         vt = self.storage(vt)
         return ('dval', kt.key + '/' + vt.key, kt, vt)
+
+    def mod_elem_key(self, t):
+        return self.k_elem(t)
 
     @staticmethod
     def storage(t):
@@ -399,6 +456,8 @@ class Engine:
         self.cur = c
         self._init_heap = {}
         self._init_keys = {}
+        self.heap_axioms = {}
+        self._pending_closure = []
         ex = Exec(self, c)
         ex.run()
         pre = '%s/%s/' % (self.prop.id, self.cur_key())
